@@ -58,7 +58,7 @@ Logged ==
   \/ Is("AwE") /\ ~Ln.canc /\ task[HT(Ln.act)].aw = Ln.e /\ (HAwaitDone(Ln.act) \/ InlineGiveUp(Ln.act))
   \/ Is("AwE") /\ Ln.canc /\ task[HT(Ln.act)].aw = Ln.e /\ HCancelAw(Ln.act)
   \/ Is("HExit") /\ Ln.out = "cancel" /\ HCancelExit(Ln.act)
-  \/ Is("ProcX") /\ Ln.exc = "Cancelled" /\ task[OwnerT].fe = Ln.e /\ task[OwnerT].fb = Ln.b /\ OwnerAbandon(OwnerT)
+  \/ Is("ProcX") /\ Ln.exc = "Cancelled" /\ task[OwnerT].fe = Ln.e /\ task[OwnerT].fb = Ln.b /\ (OwnerAbandon(OwnerT) \/ (Ln.ok = "rl" /\ OwnerAbandonRL(Ln.b)))
   \/ Is("HExit") /\ Ln.out # "cancel" /\ task[HT(Ln.act)].pc # "sync" /\ HFinish(Ln.act, IF Ln.out = "ret" THEN "ret" ELSE "raise")
   \/ Is("ProcE") /\ task[OwnerT].fe = Ln.e /\ task[OwnerT].fb = Ln.b /\ OwnerTail(OwnerT)
   \/ Is("XAwB") /\ \E k \in DOMAIN task[DT(Ln.d)].kids : task[DT(Ln.d)].kids[k] = Ln.e /\ DAwaitBegin(Ln.d, k)
@@ -66,10 +66,15 @@ Logged ==
   \/ Is("IdleB") /\ DIdleBegin(Ln.d, Ln.b, Ln.tmo >= 0)
   \/ Is("IdleE") /\ task[DT(Ln.d)].b = Ln.b /\ DIdleRecheck(Ln.d) /\ task'[DT(Ln.d)].pc = "run"
   \/ Is("IdleE") /\ task[DT(Ln.d)].b = Ln.b /\ DIdleTimeout(Ln.d)
+  \/ Is("StopB") /\ Ln.tmo <= 0 /\ DStopBegin(Ln.d, Ln.b)
+  \/ Is("StopE") /\ task[DT(Ln.d)].b = Ln.b /\ (DStopGo(Ln.d) \/ DStopWaitEnd(Ln.d)) /\ task'[DT(Ln.d)].pc = "run"
+  \/ Is("CancelRL") /\ DCancelRL(Ln.d, Ln.b)
   \/ (Is("Init") \/ Is("End") \/ Is("Acc")) /\ UNCHANGED vars
 
 Counted ==   \* silent steps that change the state
   \/ \E b \in B : RLStart(b) \/ RLTake(b) \/ RLPollIdle(b) \/ (RLBegin(b) /\ task'[RL(b)].pc = "lockwait")
+  \/ \E b \in B : RLDrop(b) \/ RLPollExit(b) \/ RLDie(b) \/ RLShutExit(b) \/ RLDieLocked(b) \/ RLTakeDying(b)
+  \/ \E i \in 1..NDrv : DStopGo(i) /\ task'[DT(i)].pc = "stop_wait"
   \/ \E t \in Tasks : (ProcSelect(t) /\ task'[t].pc = "pb") \/ (OwnerNext(t) /\ task'[t].pc = "waith") \/ OwnerResume(t) \/ OwnerEpilogue(t) \/ OwnerAbort(t) \/ FwdReturn(t) \/ SyncReturn(t) \/ ParStart(t) \/ TimeoutFire(t)
   \/ \E k \in 1..MaxAct : XStart(k) \/ XEnd(k)
   \/ \E a \in 1..MaxAct : HSuspend(a, "yield") \/ HSuspend(a, "sleep")
